@@ -175,43 +175,112 @@ def run_case(case, tid):
     return {"tid": tid, "tps": tps, "c2": int(F(cpus) * 2), "ram": int(ram * 1000), "ops": jops, "obs": obs}
 
 
+SUSP_RATES = [1, 2, 3, 5, 7, 10, 60, 100, 1000, 10**4, 10**5, 16384, 30000, 44100, 48000, 60000, 65536, 70000, 90000, 99999]
+
+
+def susp_case(rng, tid):
+    """C10 at any tick rate: a two-operator container is suspended after its first operator; how many calls of the pool does the write-out take?"""
+    from eudoxia.executor.resource_pool import ResourcePool
+    from eudoxia.executor.assignment import Assignment, Suspend
+    from eudoxia.workload import Pipeline
+    from eudoxia.workload.pipeline import Segment
+    from eudoxia.utils import Priority
+    tps = rng.choice(SUSP_RATES) if rng.random() < 0.8 else rng.randint(1, 100000)
+    K = rng.choice([0, 0, 1, 2, 3, 7, 40, rng.randint(0, 400), rng.randint(0, 3000)])          # target length in ticks
+    K = min(K, 100 * tps)                                                                         # at most 2000 GB
+    off = rng.choice([F(0), F(0), F(1, 4), F(1, 2), F(9, 10), -F(1, 1000)])
+    ram = dec(max(F(1, 10**6), (K + off) * 20 / tps), 6)
+    if ram > 2000:
+        ram = F(2000)
+    return susp_run(tps, int(ram * 10**6), tid)
+
+
+def susp_run(tps, ram_micro, tid):
+    from eudoxia.executor.resource_pool import ResourcePool
+    from eudoxia.executor.assignment import Assignment, Suspend
+    from eudoxia.workload import Pipeline
+    from eudoxia.workload.pipeline import Segment
+    from eudoxia.utils import Priority
+    ram = F(ram_micro, 10**6)
+    cert = math.floor(ram * tps / 20)
+    p = Pipeline(f"s{tid}", Priority.BATCH_PIPELINE)
+    a = p.new_operator()
+    a.add_segment(Segment(baseline_cpu_seconds=float(F(5, 4 * tps)), cpu_scaling="const", memory_gb=0.0, storage_read_gb=0.0))
+    b = p.new_operator([a])
+    b.add_segment(Segment(baseline_cpu_seconds=float(F(9, 4 * tps)), cpu_scaling="const", memory_gb=0.0, storage_read_gb=0.0))
+    p.runtime_status()
+    cap_cpu, cap_ram = 4, float(ram * 2 + 1)
+    pool = ResourcePool(pool_id=0, cpu_pool=cap_cpu, ram_pool=cap_ram, ticks_per_second=tps)
+    out = {"kind": "susp", "tid": tid, "tps": tps, "ram": ram_micro, "cert": cert, "ticks": -1, "kept": True, "freed": False, "exc": "", "ost": []}
+    try:
+        pool.run_one_tick([], [Assignment([a, b], 2, float(ram), Priority.BATCH_PIPELINE, 0, p.pipeline_id)])
+        c = pool.active_containers[0]
+        guard = 0
+        while not c.can_suspend_container() and guard < 10:
+            pool.run_one_tick([], [])
+            guard += 1
+        free = (pool.avail_cpu_pool, pool.avail_ram_pool)
+        n = 0
+        pool.run_one_tick([Suspend(c.container_id, 0)], [])
+        n += 1
+        while c in pool.suspending_containers and n <= cert + 5:
+            if (pool.avail_cpu_pool, pool.avail_ram_pool) != free:
+                out["kept"] = False
+            pool.run_one_tick([], [])
+            n += 1
+        out["ticks"] = n if c in pool.suspended_containers else -1
+        out["freed"] = pool.avail_cpu_pool == cap_cpu and abs(pool.avail_ram_pool - cap_ram) <= 1e-9 * cap_ram
+    except BaseException as e:  # noqa: BLE001
+        out["exc"] = f"{type(e).__name__}: {str(e)[:80]}"
+    out["ost"] = [a.state().value, b.state().value]
+    return out
+
+
 def _chunk(args):
-    seed, tid0, n = args
+    seed, tid0, n = args[:3]
+    susp_only = len(args) > 3 and args[3]
     common.import_repo()
     rng = random.Random(seed)
     out = []
     for i in range(n):
-        out.append([run_case(gen_case(rng), tid0 + i)])
+        if susp_only or i % 8 == 7:
+            out.append([susp_case(rng, tid0 + i)])
+        else:
+            out.append([run_case(gen_case(rng), tid0 + i)])
     return out
 
 
-def gen_lines(n, seed, procs=None):
+def gen_lines(n, seed, procs=None, susp_only=False):
     import multiprocessing as mp
     per = max(1, n // 64)
-    jobs = [(seed * 1000003 + i, i * per, per) for i in range((n + per - 1) // per)]
+    jobs = [(seed * 1000003 + i, i * per, per, susp_only) for i in range((n + per - 1) // per)]
     with common.pool(procs or common.NCPU) as pool:
         out = pool.map(_chunk, jobs)
     return [x for ch in out for x in ch]
 
 
-def check(rep, tier):
-    """Run the closed-form C05 check and add its clauses to the report."""
+def check(rep, tier, only="C05"):
+    """Run the closed-form check (C05: one container; C10: one write-out) and add the clauses of property `only` to the report."""
     import json
     n = 6000 if tier == "quick" else 150000
-    lines = gen_lines(n, common.seed())
+    if only == "C10":
+        n = n // 4
+    lines = gen_lines(n, common.seed() + (10 if only == "C10" else 0), susp_only=(only == "C10"))
     files = common.write_shards(lines, common.NCPU, "timing")
     mon = common.run_monitor("TraceTiming", "TraceTiming.cfg", files)
     byid = {ln[0]["tid"]: ln[0] for ln in lines}
     if mon.notes:
         pass
     for v in mon.viols:
+        if not str(v[2]).startswith(only + "."):
+            continue
         case = byid.get(v[0])
         rep.violation(v[2], {"tid": v[0], "detail": v[3], "case": case}, replay={"kind": "timing", "case": case}, sig={"clause": v[2]})
     rep.extra["timing"] = mon.counters
     rep.extra["timing_containers"] = mon.traces
     rep.samples.append({"timing_case": lines[3][0]})
     c = mon.counters
-    need = {"success": 500, "oom_strict": 200, "mem_samples": 2000, "zero_tick_operators": 100, "rate_ge_1000": 500}
+    need = {"success": 500, "oom_strict": 200, "mem_samples": 2000, "zero_tick_operators": 100, "rate_ge_1000": 500} if only == "C05" else {"suspensions_timed": 200, "rate_ge_1000": 150}
     lack = {k: c.get(k, 0) for k, m in need.items() if c.get(k, 0) < m}
     if lack and not mon.viols:
         raise common.MachineryError(f"vacuity: timing run did not reach {lack}")
